@@ -325,6 +325,12 @@ def run(ctx):
                 elif x.k == "bin":
                     op = x.a[0]
                     if side == "r" and op in ("Eq", "Ne") and (x.a[1].k == "const" or x.a[2].k == "const"):
+                        # bool decoding: the writer stores u8::from(flag), i.e. 1 for true — `== 1` or `!= 0`, nothing else
+                        c_ = x.a[1] if x.a[1].k == "const" else x.a[2]
+                        cv = c_.a[1] if isinstance(c_.a, (list, tuple)) and len(c_.a) > 1 else None
+                        if (op, cv) in (("Eq", 1), ("Ne", 0)):
+                            continue
+                        bad.append("%s %s (inverted flag)" % (op, cv))
                         continue
                     bad.append(op)
                 elif x.k in ("un", "cast") and side == "r":
@@ -345,6 +351,30 @@ def run(ctx):
             ctx.ob("R-C16.3", fn0, "codec-%s-%s-values-untransformed" % (mod, "decoded" if side == "r" else "encoded"), nvals > 0 and not bad,
                    "%s policy: every %s value is the %s" % (mod, "decoded" if side == "r" else "written", "bytes just read (no arithmetic, clamping or mapping)" if side == "r" else "stored element / element count") if (nvals and not bad)
                    else "%s policy: a value is transformed on the way %s (%s): the option in force after a reopen differs from the one chosen at creation" % (mod, "in" if side == "r" else "out", ", ".join(sorted(set(bad)))[:120] or "no values found"))
+        # element ORDER and COUNT: the encoder walks the policy front to back, the decoder pushes every element it decodes
+        ADAPT = ("::rev", "::skip", "::take", "::step_by", "::filter", "::skip_while", "::take_while", "::filter_map", "::chain", "::zip", "::cycle")
+        for side, fn0 in (("r", ds[0]), ("w", es[0])):
+            adap = [A.cname(t) for f2 in [fn0] + F.closures_of(fn0.id) for b, t in f2.calls()
+                    if any(A.cname(t).split("::<")[0].endswith(a_) for a_ in ADAPT) and ("Iterator" in A.cname(t) or "iter::" in A.cname(t))]
+            okp = not adap
+            detailp = "no reordering / element-dropping iterator adaptor"
+            if side == "r" and okp:
+                pushes = [b for b, t in fn0.calls() if A.cname(t).endswith("Vec::<T, A>::push")]
+                heads = [b for b, t in fn0.calls() if A.cname(t).endswith("::next") and A.in_cycle(fn0, b)]
+                for h in heads:
+                    sw_ = A.switch_after_call(fn0, h)
+                    if sw_ is None:
+                        continue
+                    _, labels_ = A.switch_info(fn0, sw_)
+                    some_t = [tg for tg, ns in labels_.items() if "Some" in ns]
+                    errs_ = list(A.error_starts(fn0))
+                    r_ = A.reach(fn0, some_t, avoid=pushes + errs_)
+                    if h in r_:
+                        okp = False
+                        detailp = "an iteration of the decode loop can finish without pushing the element it decoded"
+            ctx.ob("R-C16.3", fn0, "codec-%s-%s-keeps-every-element-in-order" % (mod, "decoder" if side == "r" else "encoder"), okp,
+                   "%s policy %s: %s" % (mod, "decoder" if side == "r" else "encoder", detailp) if okp else
+                   "%s policy %s: %s — the per-level policy in force after a reopen is not the one chosen at creation" % (mod, "decoder" if side == "r" else "encoder", ("goes through " + adap[0].rsplit("::", 1)[-1]) if adap else detailp))
         if mod == "filter":
             # tag tables
             def writer_tags(fn, variants):
